@@ -21,8 +21,10 @@ Decided:
         set in one mode -- except to manage that field itself;
   C17.5 the acceptor hands every accepted (conn, addr) pair to exactly one executor on every path, and the
         local executor is started under the very condition under which work is put on its queue;
-  shared: C10.2 (selector bookkeeping in both drivers), C19.6 (descriptor passing: sender/receiver agree),
-        C20.4 (the idle predicate is consulted by both drivers).
+  C17.10 every subscript of the acceptor's executor_* lists is reduced modulo the number of executors;
+  shared by dependency (the drivers use the per-connection code differently: every tick vs. on readiness,
+        re-registration vs. kept registrations, finally: shutdown() vs. _cleanup): C10.2, C19.6, C20.4, C05.1,
+        C10.1, C20.2, C05.8, C10.6 as C17.6-C17.9 and C17.11-C17.14.
 Not decided: equality of the transcripts; scheduling, fairness and timing differences between a
 thread, an in-process loop and a worker process; behaviour of the operating system's descriptor passing."""
 import ast
@@ -381,7 +383,13 @@ def run(ch: Checker) -> None:
                      'under which it queues work for it', 3)
     ch.import_rules('C10', {'C10.2': 'C17.6'}, 'both drivers keep the selector and their bookkeeping of one work in step')
     ch.import_rules('C19', {'C19.6': 'C17.7'}, 'a connection handed to a worker process arrives as the connection that was accepted')
-    ch.import_rules('C20', {'C20.4': 'C17.8'}, 'idle connections are reaped in every mode')
+    ch.import_rules('C20', {'C20.4': 'C17.8', 'C20.2': 'C17.12'}, 'idle connections are reaped in every mode; "activity" is stamped where client I/O happens, not where a driver happens to call '
+                    '(the thread-per-connection loop calls handle_events on every tick, the shared loop only for ready descriptors)')
+    ch.import_rules('C05', {'C05.1': 'C17.9', 'C05.8': 'C17.13'}, 'an exception raised by one work\'s handler ends that work in the shared loop as the `finally: shutdown()` of the thread-per-connection loop does; '
+                    'a socket closed before teardown is harmless where descriptors are re-registered on every tick and poisons the selector of the shared loop')
+    ch.import_rules('C10', {'C10.1': 'C17.11', 'C10.6': 'C17.14'}, 'every way out of either driver shuts the work down and closes what that mode received for it (the duplicated descriptor of a worker process included)')
+    ch.rule('C17.10', 'dispatch to worker processes stays within the pool: every subscript of the acceptor\'s executor_* lists uses an index reduced modulo the number of executors '
+                      '(flags.num_workers, which is how many the pool starts, or the length of that list)', 3)
 
     protocol = _protocol_methods(prog)
     work_cls = prog.class_named('Work')
@@ -634,3 +642,46 @@ def run(ch: Checker) -> None:
                  % (sorted(st), sorted(q)))
         if sp:
             ch.check(sp == st, 'C17.5', rn, 'in-process executor stopped when started', 'stopped under the same condition', 'the in-process executor is stopped under %s but started under %s' % (sorted(sp), sorted(st)))
+
+    # ------------------------------------------------------------ C17.10
+    n10 = 0
+    for fn in (prog.lookup_method(acc, nm) for nm in sorted(acc.methods) + sorted(acc.inlined_methods)):
+        if fn is None:
+            continue
+        g = None
+        subs = [s for s in walk_no_nested(fn.node) if isinstance(s, ast.Subscript) and isinstance(s.ctx, ast.Load) and (attr_chain(s.value) or '').startswith('self.executor_')
+                and not isinstance(s.slice, ast.Slice)]
+        if not subs:
+            continue
+        g = cfg_of(fn, prog, exc_edges=False)
+        verdict: Dict[int, Tuple[ast.Subscript, Optional[str]]] = {}
+        for p in fpaths(g):
+            ch.paths += 1
+            sym = Sym(p)
+            for i, nd, lab in p.executed():
+                if nd.ast is None or nd.kind not in ('stmt', 'test'):
+                    continue
+                for s in walk_no_nested(nd.ast):
+                    if any(s is x for x in subs):
+                        v = sym.value(s.slice, i)        # type: ignore[attr-defined]
+                        lst = attr_chain(s.value)        # type: ignore[attr-defined]
+                        ok = isinstance(v, ast.BinOp) and isinstance(v.op, ast.Mod) and norm(v.right) in ('self.flags.num_workers', 'len(%s)' % lst)
+                        ok = ok or (isinstance(v, ast.Constant) and v.value == 0)
+                        prev = verdict.get(id(s), (s, None))[1]
+                        verdict[id(s)] = (s, prev or (None if ok else norm(v)[:80]))   # type: ignore[assignment]
+        for s, why in verdict.values():
+            n10 += 1
+            ch.check(why is None, 'C17.10', fn, s, 'index reduced modulo the number of executors',
+                     'the executor for an accepted connection is chosen with index %s, which is not reduced modulo the number of executors: with a configuration where it runs past the list '
+                     '(e.g. more acceptors than workers) the acceptor dies with IndexError and the connections it accepted are never served -- in this mode only' % why)
+    # the pool starts exactly flags.num_workers executors
+    tp = prog.class_named('ThreadlessPool')
+    su = prog.lookup_method(tp, 'setup')
+    if su is None:
+        raise AnalysisError('anchor vanished: ThreadlessPool.setup')
+    starts = [lp for lp in walk_no_nested(su.node) if isinstance(lp, ast.For) and any(isinstance(c_, ast.Call) and attr_chain(c_.func) == 'self._start_worker' for c_ in ast.walk(lp))]
+    okp = len(starts) == 1 and isinstance(starts[0].iter, ast.Call) and attr_chain(starts[0].iter.func) == 'range' and len(starts[0].iter.args) == 1 and \
+        norm(starts[0].iter.args[0]) == 'self.flags.num_workers'
+    ch.check(okp, 'C17.10', su, 'executors started', 'exactly flags.num_workers executors are started', 'ThreadlessPool.setup does not start one executor per index in range(flags.num_workers): the acceptor\'s modulo no longer matches the pool size')
+    if n10 == 0:
+        raise AnalysisError('anchor vanished: the acceptor no longer indexes its executor_* lists')
